@@ -26,7 +26,9 @@ RULE = ("grammar-directed over the public operators (IntVar/Expr +,-,*, reversed
         "depth <= 3), 1-4 variables with domains such as -2..1, 3..5, 0..3, 0-4 constraints per model out of "
         "==/!= relations, eq/ne const/var, all_different, sum_eq/le/ge, circuit, no_overlap, cumulative (1-4 "
         "arguments), hints in/out of domain/unknown name, solution_limit in {1,3,100}; every model is solved with "
-        "solver=auto, dfs and sat; non-trivial = >=1 constraint and >=2 variables with non-singleton domains; "
+        "solver=auto, dfs and sat; plus a routing family (operator sums over 2-8 all_different variables with domains up "
+        "to 0..12, where a DFS run would not finish; judged by the verified evaluator on the returned and a planted "
+        "assignment, the back-end actually used is compared with the Cp.Choose mirror); non-trivial = >=1 constraint and >=2 variables with non-singleton domains; "
         "distinct by (model, hints, limit, solver)")
 FN = "Model.solve"
 WEIGHTS = {"rel": 45, "simple": 18, "alldiff": 10, "sumeq": 5, "sumle": 4, "sumge": 4, "circuit": 5, "noov": 5, "cum": 4}
@@ -43,6 +45,21 @@ def gen_cases(rng, n_models, big):
         limit = rng.choice([1, 1, 3, 100])
         for solver in ("auto", "dfs", "sat"):
             cases.append({"vars": vars_, "cons": cons, "hints": hints, "limit": limit, "solver": solver, "hidden": hidden})
+    return cases
+
+
+def gen_routing_cases(rng, n):
+    cases = []
+    for _ in range(n):
+        vars_, cons, plant, big = K.gen_routing(rng)
+        solvers = ("auto", "sat") if big else ("auto", "dfs", "sat")
+        for solver in solvers:
+            c = {"vars": vars_, "cons": cons, "hints": None, "limit": 1, "solver": solver, "family": "routing"}
+            if big:
+                c["big"] = True
+            if plant is not None:
+                c["plant"] = plant
+            cases.append(c)
     return cases
 
 
@@ -93,10 +110,14 @@ def first_judgement(case, pcs, out, d):
         return [(f"{path}:raises:{err_kind(out)}", f"valid model raised: {out[1][:300]}", True)]
     o = out[1]
     st = o["status"]
+    big = bool(case.get("big"))  # no exhaustive enumeration: only returned assignments are judged
     if st == "SAT_TIMEOUT":
         return [("sat_backend:timeout", f"solve_sat did not return within {K.SAT_TIMEOUT} s on the captured CNF", False)]
     sols = o["sols"]
     if st == "INFEASIBLE":
+        if big and case.get("plant") is not None:
+            res.append((f"{path}:false_infeasible", f"INFEASIBLE although the planted assignment {case['plant']} "
+                        "satisfies every constraint (verified evaluator)", True))
         if d["hint_sols"]:
             if path == "sat" and o["cnf"] is not None and d["sat_under_assumptions"]:
                 res.append(("sat_backend:false_unsat", "solve_sat reported INFEASIBLE on a CNF that the verified DPLL "
@@ -145,15 +166,28 @@ def run_cases(ctx, cases, attribute=True):
     cov = ctx.cov.setdefault("coverage_table", {})
     for case, pcs, out, rp in zip(cases, pcss, outs, replies):
         d = K.unpack(rp)
+        if case.get("plant") is not None:  # the planted assignment was judged as an extra entry
+            plant_ok = d["checks"][-1] == 0
+            d["checks"] = d["checks"][:-1]
+            if not plant_ok:
+                case = {k: v for k, v in case.items() if k != "plant"}
         path = K.path_of(case, d["choose_sat"])
         rep = {"case": case, "proto": pcs, "impl": out, "model": {k: d[k] for k in ("sols", "hint_sols", "checks", "choose_sat", "dfs",
                                                                                 "sat_under_assumptions", "sat_model_checks")}}
         st = out[1]["status"] if out[0] == "ok" else err_kind(out)
         ctx.count(f"status:{st}")
         ctx.count(f"solver:{case['solver']}->{path}")
+        if case.get("family") == "routing":
+            ctx.count(f"routing_family:{case['solver']}->{path}" + (":big" if case.get("big") else ""))
+        # R_trace on the chosen back-end: a SATEncoder was created iff the mirror routes to SAT
+        if out[0] == "ok" and out[1].get("used_sat") != (path == "sat"):
+            ctx.tdiv(FN, {"case": case, "what": "chosen back-end differs from the Cp.Choose mirror",
+                          "impl_used_sat": out[1].get("used_sat"), "mirror_path": path})
+        elif out[0] == "ok":
+            ctx.cov["r_trace_agree"] = ctx.cov.get("r_trace_agree", 0) + 1
         ctx.count(f"limit:{case['limit']}")
         ctx.count("hints:" + ("none" if case["hints"] is None else "some" if case["hints"] else "empty"))
-        ctx.count("truth:" + ("feasible" if d["sols"] else "infeasible"))
+        ctx.count("truth:" + ("not_enumerated" if case.get("big") else "feasible" if d["sols"] else "infeasible"))
         ctx.count("hidden_vars:" + ("some" if case.get("hidden") else "none"))
         for pc in pcs:
             key = f"{K.tag_of(pc)}|{case['solver']}->{path}"
@@ -171,6 +205,8 @@ def run_cases(ctx, cases, attribute=True):
         if out[0] == "ok" and st in ("OPTIMAL", "FEASIBLE", "INFEASIBLE"):
             key = json.dumps([case["vars"], case["cons"], case["hints"], case["limit"], case.get("hidden")], sort_keys=True)
             groups.setdefault(key, []).append((case["solver"], st != "INFEASIBLE", bool(fails)))
+        if out[0] == "ok" and out[1]["sols"] is not None and len(out[1]["sols"]) > case["limit"]:
+            ctx.tdiv(FN, {"case": case, "what": "more solutions returned than solution_limit", "impl": out[1]["sols"]})
         # soft tie of the DFS mirror: with a limit above the number of solutions the DFS path returns all of them
         if (out[0] == "ok" and path == "dfs" and st != "INFEASIBLE" and d["dfs"] is not None
                 and len(d["hint_sols"]) < case["limit"] and not case.get("hidden")):
@@ -225,6 +261,7 @@ def run(ctx, budget):
     # batches bound the memory of a thorough run; every batch is generated from ctx.rng only
     for _ in range(5 * budget):
         run_cases(ctx, gen_cases(ctx.rng, 1000, big=(ctx.tier == "thorough")))
+    run_cases(ctx, gen_routing_cases(ctx.rng, 60 * budget))
     summarise(ctx)
 
 
